@@ -219,3 +219,123 @@ Proof.
   rewrite list_set_int_valid by assumption.
   apply IH. rewrite splice_one_len by assumption. assumption.
 Qed.
+
+(* ---- l[index] = xs as "for p, x in zip(range, xs): l[p] = x" ------------------------------------- *)
+Lemma range_len_nonneg r : 0 <= range_len r.
+Proof.
+  unfold range_len. destruct (0 <? r_step r) eqn:E.
+  - destruct (r_start r <? r_stop r) eqn:E2; [|lia].
+    assert (0 <= (r_stop r - r_start r - 1) / r_step r) by (apply Z.div_pos; lia). lia.
+  - destruct (r_stop r <? r_start r) eqn:E2; [|lia].
+    destruct (Z.eq_dec (r_step r) 0) as [->|Hn].
+    + cbn. rewrite Zdiv_0_r. lia.
+    + assert (0 <= (r_start r - r_stop r - 1) / (- r_step r)) by (apply Z.div_pos; lia). lia.
+Qed.
+
+Lemma zlen_range_list r : zlen (range_list r) = range_len r.
+Proof.
+  unfold range_list, zlen. rewrite map_length, seq_length.
+  pose proof (range_len_nonneg r). lia.
+Qed.
+
+Lemma range_one j : range_list (mkrng j (j + 1) 1) = [j].
+Proof.
+  unfold range_list, range_len. cbn [r_start r_stop r_step].
+  replace (0 <? 1) with true by lia. replace (j <? j + 1) with true by lia.
+  assert (H : (j + 1 - j - 1) / 1 + 1 = 1) by (rewrite Z.div_1_r; lia). rewrite H.
+  change (Z.to_nat 1) with 1%nat. cbn [seq map]. f_equal. change (Z.of_nat 0) with 0. lia.
+Qed.
+
+Lemma range_from_index_bounds index n r :
+  0 <= n -> range_from_index index n = Ok r -> Forall (fun p => 0 <= p < n) (range_list r).
+Proof.
+  intros Hn H. destruct index as [i|sl]; cbn [range_from_index] in H.
+  - destruct (norm_index n i) as [j|] eqn:E; [|discriminate]. inversion H; subst.
+    rewrite range_one. apply norm_index_ok in E. constructor; [lia|constructor].
+  - unfold range_getslice in H.
+    destruct (slice_indices n sl) as [[[a b] k]|] eqn:E; [|discriminate]. inversion H; subst.
+    eapply range_list_bounds; eauto.
+Qed.
+
+Lemma assign_each_contig {A} : forall (mid pre suf xs : list A),
+  length xs = length mid ->
+  assign_each (pre ++ mid ++ suf) (map (fun k => zlen pre + Z.of_nat k) (seq 0 (length mid))) xs
+  = (pre ++ xs ++ suf, Ok tt).
+Proof.
+  induction mid as [|y mid IH]; intros pre suf xs Hl.
+  - destruct xs; [reflexivity|discriminate].
+  - destruct xs as [|x xs]; [discriminate|]. cbn [length seq map assign_each].
+    replace (zlen pre + Z.of_nat 0) with (zlen pre) by lia.
+    cbn [app]. rewrite list_set_int_mid.
+    rewrite <- seq_shift, map_map.
+    replace (pre ++ x :: mid ++ suf) with ((pre ++ [x]) ++ mid ++ suf) by (now rewrite <- app_assoc).
+    erewrite map_ext; [rewrite IH by (cbn in Hl; lia)|].
+    + now rewrite <- app_assoc.
+    + intros k. cbv beta. rewrite zlen_app. change (zlen [x]) with 1. lia.
+Qed.
+
+Lemma range_list_contig a b : a <= b ->
+  range_list (mkrng a b 1) = map (fun k => a + Z.of_nat k) (seq 0 (Z.to_nat (b - a))).
+Proof.
+  intros H. unfold range_list, range_len. cbn [r_start r_stop r_step].
+  replace (0 <? 1) with true by lia.
+  destruct (a <? b) eqn:E.
+  - rewrite Z.div_1_r. replace (b - a - 1 + 1) with (b - a) by lia.
+    apply map_ext. intros k. lia.
+  - replace (b - a) with 0 by lia. reflexivity.
+Qed.
+
+Lemma splice_as_assign {A} (l xs : list A) (a b : Z) :
+  0 <= a <= zlen l -> 0 <= b <= zlen l -> range_len (mkrng a b 1) = zlen xs ->
+  splice l a b xs = fst (assign_each l (range_list (mkrng a b 1)) xs).
+Proof.
+  intros Ha Hb Hlen.
+  destruct (Z_le_gt_dec a b) as [Hab|Hab].
+  - assert (Hxs : zlen xs = b - a).
+    { unfold range_len in Hlen. cbn [r_start r_stop r_step] in Hlen.
+      replace (0 <? 1) with true in Hlen by lia. rewrite Z.div_1_r in Hlen.
+      destruct (a <? b) eqn:E; lia. }
+    destruct (split_at l a) as (A0 & BC & -> & HA); [lia|].
+    rewrite zlen_app in Hb.
+    destruct (split_at BC (b - a)) as (B0 & C0 & -> & HB); [lia|].
+    assert (Hll : length xs = length B0) by (unfold zlen in *; lia).
+    rewrite range_list_contig by lia. rewrite <- HB.
+    replace b with (zlen A0 + zlen B0) by lia. subst a. rewrite splice_mid.
+    unfold zlen at 2. rewrite Nat2Z.id.
+    now rewrite assign_each_contig.
+  - assert (xs = []).
+    { unfold range_len in Hlen. cbn [r_start r_stop r_step] in Hlen.
+      replace (0 <? 1) with true in Hlen by lia. replace (a <? b) with false in Hlen by lia.
+      destruct xs; [reflexivity|]. rewrite zlen_cons in Hlen. pose proof (zlen_nonneg xs). lia. }
+    subst xs.
+    assert (Hr : range_list (mkrng a b 1) = []).
+    { unfold range_list, range_len. cbn [r_start r_stop r_step].
+      replace (0 <? 1) with true by lia. now replace (a <? b) with false by lia. }
+    rewrite Hr. cbn [assign_each fst].
+    destruct (split_at l a) as (A0 & C0 & -> & HA); [lia|]. subst a.
+    now rewrite splice_ins by lia.
+Qed.
+
+(* both forms of Python assignment that a view accepts are that loop *)
+Lemma list_setitem_eqlen_as_assign {A} (l : list A) index xs :
+  (match index with IInt _ => length xs = 1%nat | ISlice _ => True end) ->
+  list_setitem_eqlen l index xs =
+  match range_from_index index (zlen l) with
+  | Err e => Err e
+  | Ok r => if range_len r =? zlen xs then Ok (fst (assign_each l (range_list r) xs)) else Err ValueError
+  end.
+Proof.
+  intros Hx. pose proof (zlen_nonneg l) as Hn. destruct index as [i|sl]; cbn [list_setitem_eqlen range_from_index].
+  - destruct xs as [|x [|y xs]]; try discriminate.
+    unfold list_set_int. destruct (norm_index (zlen l) i) as [j|e] eqn:E.
+    + rewrite <- (zlen_range_list (mkrng j (j + 1) 1)), range_one. cbn [assign_each].
+      apply norm_index_ok in E. rewrite list_set_int_valid by lia. reflexivity.
+    + apply norm_index_err in E. now destruct E as (-> & _).
+  - unfold range_getslice, list_set_slice.
+    destruct (slice_indices (zlen l) sl) as [[[a b] k]|e] eqn:E; [|reflexivity].
+    destruct (range_len (mkrng a b k) =? zlen xs) eqn:El; [|reflexivity].
+    destruct (k =? 1) eqn:Ek; [|reflexivity].
+    assert (k = 1) by lia. subst k.
+    destruct (slice_indices_range _ _ _ _ _ Hn E) as (_ & Hpos & _).
+    destruct (Hpos ltac:(lia)). f_equal. apply splice_as_assign; auto; lia.
+Qed.
